@@ -97,13 +97,16 @@ def observe(data):
     try:
         f = TdmsFile.read(io.BytesIO(data), raw_timestamps=True)
     except Exception as ex:  # noqa
-        return {"error": True, "exception": "%s: %s" % (type(ex).__name__, ex), "groups": [], "gchans": [], "len": [],
+        return {"error": True, "partial": False, "exception": "%s: %s" % (type(ex).__name__, ex), "groups": [], "gchans": [], "len": [],
                 "ty": [], "props": []}
     finally:
         if _verif is not None:
             _verif.set_sink(None)
     v = proj.project_file(f, data=False)
-    return {"error": False, "groups": v["groups"], "gchans": [[g, v["gchans"][g]] for g in v["groups"]],
+    partial = any(r.get("final_chunk_lengths") is not None for r in IMPL) if IMPL else \
+        (f.file_status.channel_statuses is not None and any(
+            st.read_length != st.expected_length for st in f.file_status.channel_statuses.values()))
+    return {"error": False, "partial": bool(partial), "groups": v["groups"], "gchans": [[g, v["gchans"][g]] for g in v["groups"]],
             "len": [[c, min(d["len"], 10 ** 9)] for c, d in v["chans"].items()],
             "ty": [[c, d["ty"] or "none"] for c, d in v["chans"].items()],
             "props": [[p, [[k, val] for k, val in m.items()]] for p, m in v["props"].items()]}
